@@ -79,26 +79,25 @@ SPEC = {
     "lean_modules": ["RsslVerif.Thm.C12"],
     "theorems": [T + n for n in [
         "source_shape", "expand_terminates", "expand_never_hangs", "object_like_is_substitution", "function_like_is_substitution",
-        "define_undef_scoping", "api_duplicates_break_scoping", "api_defines_equal_file_defines_partial",
-        "api_defines_differ_from_file_defines", "expand_refines_spec_partial", "include_is_paste", "pragma_once_once"]],
+        "define_undef_scoping", "macro_names_always_distinct", "api_defines_equal_file_defines",
+        "expand_refines_spec_partial", "include_is_paste", "pragma_once_once"]],
     "harness": "c12",
     "nontrivial": nontrivial,
     "finding_key": finding_key,
     "shrink": shrink,
     "search": search,
-    "level_text": "Proof, partial. Kernel-checked for every macro list, token list and include graph: the model's expansion "
-                  "function (loop + recursive expansion of arguments and bodies of preprocess.rs, after the d00f5aa fix) is total by "
-                  "the lexicographic measure (enabled macros, tokens right of next_pos) and its measure guards never fire "
-                  "(expand_terminates), and the non-advancing `continue` of find_single_macro is unreachable (expand_never_hangs); invoking an object-like / function-like macro (n >= 1 parameters, arguments with nested "
+    "level_text": "Proof, partial. Kernel-checked for every macro list, token list, API define list and include graph: the "
+                  "model's expansion function (loop + recursive expansion of arguments and bodies of preprocess.rs, after the d00f5aa "
+                  "fix) is total by the lexicographic measure (enabled macros, tokens right of next_pos), its measure guards never "
+                  "fire (expand_terminates) and the non-advancing `continue` of find_single_macro is unreachable "
+                  "(expand_never_hangs); invoking an object-like / function-like macro (n >= 1 parameters, arguments with nested "
                   "parentheses and commas) on inert text yields the body with the arguments substituted; the macro list never holds "
-                  "two entries of a name and lookup = latest #define not followed by #undef (from a duplicate-free start); #include = "
-                  "the file's lines between two block boundaries; a #pragma once file contributes once; API defines and #define "
-                  "lines build the same macro list up to location bits (distinct names, trimmed values without ##). Proved FALSE "
-                  "with witnesses replayed on the real code: API defines = #define lines in general (## in the value, duplicate "
-                  "names, unlex panic). Partial: equivalence with the reference C algorithm (Spec.CPre.expand, Prosser) is proved for "
-                  "object-like macros with inert bodies only; nested rescanning, ## and function-like macros on the reference side "
-                  "are covered by the correspondence run against an independent reference preprocessor in the harness, which "
-                  "exhibits eight reproducible deviations from C (listed as known findings).",
+                  "two entries of a name through a whole run and lookup = latest #define not followed by #undef; API defines = "
+                  "#define lines placed before the first line (full, after the 9f7cdb8 fix); #include = the file's lines between two "
+                  "block boundaries; a #pragma once file contributes once. Partial: equivalence with the reference C algorithm "
+                  "(Spec.CPreMacro.expand, Prosser) is proved for the classes named in expand_refines_spec_partial; the rest of the "
+                  "rescanning equivalence is covered by the correspondence run against an independent reference preprocessor in "
+                  "the harness, which exhibits six reproducible deviations from C (listed as known findings).",
     "rule": "requests = (API define list, include graph of files given line by line as token lists); the harness renders the "
             "files, checks with the real lexer that every line lexes to exactly the request's tokens, runs the real "
             "rssl_preprocess::preprocess + prepare_tokens and compares kinds/values of the result with the model and with an "
@@ -111,8 +110,8 @@ SPEC = {
     "trusted_base": [
         "Lean 4.33 kernel; axioms propext / Classical.choice / Quot.sound only (audited by #print axioms)",
         "tools/gens/c12.py (MacroTables: any_word keyword arms, preprocess_command directive arms and the retain/push shape of "
-        "define/undef, the pragma names, Token::is_whitespace, the apply_macros_internal call that expands arguments, the plain "
-        "push of initial defines, compile()'s built-in defines) — re-run on /repo's working tree every time",
+        "define/undef, the pragma names, Token::is_whitespace, the apply_macros_internal call that expands arguments, the "
+        "Macro::parse + retain + push path of initial defines, compile()'s built-in defines) — re-run on /repo's working tree every time",
         "hand-written Model/Macro.lean and Model/Include.lean mirror preprocess.rs; tied to the code by the correspondence run only",
         "Spec/CPre.lean: our reading of C11 6.10.3 (Prosser's algorithm) and 6.10.3.5 (scope of definitions)",
         "harness reference preprocessor (Rust) = the oracle of the correspondence run; the lexer is used as given (C10)",
